@@ -45,7 +45,7 @@ def run(R, tier, seed, driver_ok):
             perm = rng.permutation(len(full))
             pool = full[perm]
             inv = np.argsort(perm)            # full row r sits at pool[inv[r]]
-            params = zoo.default_params(name, rng, d)
+            params = zoo.fix_params(name, zoo.default_params(name, rng, d), X, y)
             ia, fa = zoo.fit_args(name, X, y, rng, indices=True)
             if name.startswith('SDML'):
                 params['balance_param'] = zoo.sdml_safe_balance(name, X, fa, params)
